@@ -62,7 +62,7 @@ KeysOf(n) == {n.c[j] : j \in {x \in DOMAIN n.c : x % 2 = 1}}
 \* the element mappings of an !!omap / !!pairs list are taken apart into (key, value) tuples, not built as dicts: their
 \* keys need not be hashable - unless the same mapping node is also used as an ordinary node somewhere
 BuiltAsNode(h, r, n) == n = r \/ \E p \in Reach(h, {r}, {}) : h[p].kind \notin {"omap", "pairs"} /\ \E j \in DOMAIN h[p].c : h[p].c[j] = n
-BadKey(h, r) == \E n \in Reach(h, {r}, {}) : h[n].kind \in {"map", "set", "obj"} /\ BuiltAsNode(h, r, n)
+BadKey(h, r) == \E n \in Reach(h, {r}, {}) : h[n].kind \in {"map", "set", "obj", "sobj"} /\ BuiltAsNode(h, r, n)
                                               /\ \E k \in KeysOf(h[n]) : Unhashable(h[k])
 
 \* Deep construction (constructor.py:61-100): the arguments of a python/object/apply node ("app") are built with
@@ -71,9 +71,13 @@ BadKey(h, r) == \E n \in Reach(h, {r}, {}) : h[n].kind \in {"map", "set", "obj"}
 \* self-reference runs through constructor arguments and cannot be built (hard: ConstructorError is the required
 \* outcome); when it is an enclosing plain collection inside the region the statement would have it built, the
 \* implementation rejects it (soft: either outcome is accepted; recorded as a limit in DESIGN.md).
-DeepRegion(h, st) == LET apps == {j \in DOMAIN st : h[st[j]].kind = "app"} IN
+\* The state mapping of an object whose class defines __setstate__ ("sobj": python/object:, constructor.py
+\* construct_python_object / set_python_instance_state, and YAMLObject classes) is built with deep=True as well - but AFTER
+\* the instance exists and has been registered (the constructor yields the bare instance first), so a reference from inside
+\* the state to the object itself is an ordinary buildable self-reference: "none".
+DeepRegion(h, st) == LET apps == {j \in DOMAIN st : h[st[j]].kind \in {"app", "sobj"}} IN
                      IF apps = {} THEN {} ELSE {st[j] : j \in {x \in DOMAIN st : x >= (CHOOSE m \in apps : \A y \in apps : m <= y)}}
-DeepMark(h, st, t) == IF t \notin DeepRegion(h, st) THEN "none" ELSE IF h[t].kind = "app" THEN "hard" ELSE "soft"
+DeepMark(h, st, t) == IF t \notin DeepRegion(h, st) \/ h[t].kind = "sobj" THEN "none" ELSE IF h[t].kind = "app" THEN "hard" ELSE "soft"
 \* !!omap / !!pairs: every element must be a mapping with exactly one pair (constructor.py:352-394); the list itself is a
 \* two-phase object, so an alias inside an element may refer back to it
 BadPairs(h, r) == \E n \in Reach(h, {r}, {}) : h[n].kind \in {"omap", "pairs"} /\
